@@ -6,7 +6,7 @@ LEVEL = "translation_validation"
 MODULES = ["TLVerif.Props.C22"]
 THEOREMS = ["TLVerif.Props.C22." + t for t in [
     "canonical_print_core_only", "print_visible_only", "canonical_idempotent_of_roundtrip",
-    "default_idempotent_of_visible_roundtrip", "wOne_parsed", "wDep_parsed", "roundtrip_fails_at_one_variant_union",
+    "default_idempotent_of_visible_roundtrip", "wOne_parsed", "wDep_parsed", "one_variant_union_roundtrips_now",
     "roundtrip_fails_at_dep_name", "statement_fails", "witnesses_outside_guard",
     "type_roundtrip_tokens", "fields_roundtrip_tokens", "struct_roundtrip_tokens", "parse_of_printed_token_sequence",
     "roundtrip_of_lex_certificate", "canonical_idempotent_of_lex_certificate"]]
@@ -17,7 +17,8 @@ SOURCES = ["TLVerif.Syntaxtl2.Basic", "TLVerif.Syntaxtl2.Lexer", "TLVerif.Syntax
            "TLVerif.Syntaxtl2.StructLemmas", "TLVerif.Syntaxtl2.DeclLemmas", "TLVerif.Syntaxtl2.CombLemmas",
            "TLVerif.Syntaxtl2.FileLemmas"]
 
-# witnesses of the two known findings (known_findings.d/C22.json is keyed by these lines)
+# witness of the known finding (known_findings.d/C22.json is keyed by this line); the one-variant-union lines are the
+# regression inputs of the defect repaired in /repo 11a4a9c8 (`a = | B;` was printed as `a = B;`)
 W_DEP = "syntaxtl2.fmt c " + hx(b"a = _x:int;\n")
 W_ONE = "syntaxtl2.fmt c " + hx(b"a = | B;\n")
 WITNESSES = [W_DEP, "syntaxtl2.fmt d " + hx(b"a = _x:int;\n"), W_ONE, "syntaxtl2.fmt d " + hx(b"a = | B;\n"),
@@ -35,14 +36,11 @@ def oracle(c, line, out):
     dep, one = p["dep"] == "true", p["one"] == "true"
     rt, idem = p["rt"], p["idem"]
     if rt == "same" and idem == "yes":
-        return "holds" if not (dep or one) else "holds-outside-guard"
+        return "holds" if not dep else "holds-outside-guard"
     # property fails on this input
-    if rt == "diff" and idem == "yes" and dep and not one:
+    if rt == "diff" and idem == "yes" and dep:
         c.oracle_fail(W_DEP, "formatted text parses to different declarations (deprecated field name `_name` printed as `_`)", line)
         return "known:dep"
-    if rt in ("err", "diff") and idem in ("na", "yes") and one:
-        c.oracle_fail(W_ONE, "formatted text of a one-variant union lost its leading `|` (does not parse back / parses differently)", line)
-        return "known:one"
     what = {"err": "formatted text does not parse", "diff": "formatted text parses to different declarations",
             "same": "formatting is not idempotent"}[rt]
     if rt != "same" and idem == "no":
@@ -116,8 +114,7 @@ def run(c):
         cls = oracle(c, l, a)
         c.count("gen:formatted:" + cls)
         if a.startswith("ok ") and G.unhex(a.split(" ")[1]) != G.unhex(l.split(" ")[2]) and "rt=err" not in a:
-            dep_one = "dep=true" in a or "one=true" in a
-            if not dep_one:
+            if "dep=true" not in a:
                 c.oracle_fail(l, "text produced by the formatter is not a fixed point of the formatter", l)
     # T3 certificate: for every accepted text and both option sets the model evaluates (i) File.wf of the parsed file (the
     # hypothesis of the token-level theorems) and (ii) the lexing certificate `lexCert (printFile o f) f`; where both hold,
@@ -153,4 +150,4 @@ def run(c):
                        "(compared byte for byte); texts: all TL2 texts of the repository, files from the type-directed generator with random "
                        "layout and comments (narrow, wide, comment-free), families straddling the 120/80 line-breaking thresholds, single-edit "
                        "mutations, grammar-shaped soups, then every formatted output again as input; distinct = distinct (options, text); "
-                       "non-trivial = the text parses; histogram gen:<generator>:<holds|known:dep|known:one|rejected|fails>")
+                       "non-trivial = the text parses; histogram gen:<generator>:<holds|known:dep|rejected|fails>")
